@@ -3,7 +3,7 @@
 # count (split over shards), shards = parallel processes with different PRNG values.
 
 PROPS = {}
-HOOK_COMMITS = ["47c42dd", "a2d506f", "d83715b", "558481b"]
+HOOK_COMMITS = ["47c42dd", "a2d506f", "d83715b", "558481b", "3b471b4"]
 NOT_CLAIMED = {}
 
 
@@ -155,10 +155,12 @@ prop("C18",
      title="The backlog ring returns the bytes written at an offset, or says they are gone",
      timing=True,
      quick=[{"re": "^TestC18$", "checks": 3000},
-            {"re": "^TestC18Waiters$", "checks": 1500, "shards": 3}],
+            {"re": "^TestC18Waiters$", "checks": 1500, "shards": 3},
+            {"re": "^TestC18Writers$", "checks": 300}],
      thorough=[{"re": "^TestC18$", "checks": 300000, "shards": 8, "timeout": 1700},
-               {"re": "^TestC18Waiters$", "checks": 100000, "shards": 8, "timeout": 1700}],
-     rule="(sequential) rapid state machine over Write(k) (k from 0 to 2*cap+5, so many wrap-arounds), ReadAt(k,o) with o drawn around rpos-3..rpos+3, "
+               {"re": "^TestC18Waiters$", "checks": 100000, "shards": 8, "timeout": 1700},
+               {"re": "^TestC18Writers$", "checks": 100000, "shards": 4, "timeout": 1700}],
+     rule="(concurrent writers, TestC18Writers) 2-4 goroutines issue 2-5 writes each (sizes 1 to ring+5, each filled with a byte value of its own; optionally every partial store write slowed through the hook backlog.VerifSlowWrite): whatever the order, the retained log is a sequence of whole writes - no write's bytes appear in two places. (sequential) rapid state machine over Write(k) (k from 0 to 2*cap+5, so many wrap-arounds), ReadAt(k,o) with o drawn around rpos-3..rpos+3, "
           "wpos-3..wpos+3, the middle, 0 and random, NewReader, Reader.Read, IsValid, SeekTo (to the current offset, around the range edges), Offset, "
           "DataRange, Close; memory backlogs of 1,2,3,5 alignment units and file backlogs of 1 or 3 x 4 MiB; model = total written + capacity + "
           "position-dependent byte pattern; the caller's buffer is overwritten right after every Write (it owns it again); only calls the model says cannot block are issued, those beyond the write position under a 3 s watchdog. After every call: invalid-offset error iff o > wpos or o+cap < wpos, "
@@ -270,7 +272,7 @@ prop("C20",
 prop("C17",
      title="Decode mode prints every element of the RDB, recoverably",
      quick=[{"re": "^TestC17$", "checks": 500, "shards": 2},
-            {"re": "^TestC17Chunked$", "checks": 4, "shards": 2}],
+            {"re": "^TestC17Chunked$", "checks": 8, "shards": 4}],
      thorough=[{"re": "^TestC17$", "checks": 60000, "shards": 12, "timeout": 1700},
                {"re": "^TestC17Chunked$", "checks": 240, "shards": 6, "timeout": 1700}],
      rule="RDB files from the C01 generator restricted to classic types in every encoding (ziplist/intset/zipmap/quicklist/LZF/int strings), binary "
